@@ -331,6 +331,16 @@ def dec_tokens(toks, i=0):
     raise ValueError('bad token ' + t)
 
 
+def corr_run(ctx, mod):
+    """run one model-correspondence module under a deadline: an implementation call that does not return is a finding"""
+    try:
+        with time_limit(1800 if ctx.thorough else 300, mod.__name__):
+            mod.run(ctx)
+    except Hang as exc:
+        ctx.violation(f'{mod.__name__}/did-not-terminate', f'{exc}: an implementation call driven by {mod.__name__} does not return on this tree',
+                      dict(note=str(exc), last_samples=ctx.samples[-2:]))
+
+
 def as_text(v):
     """bytes or U -> python str of code points"""
     if isinstance(v, (bytes, bytearray)):
